@@ -3,4 +3,4 @@
 prop=$1; patch=$2; tier=${3:-quick}
 git -C /repo apply "$patch" || { echo "patch does not apply"; exit 2; }
 cd /verif && ./check $prop --tier $tier 2>&1 | grep -E '^(VIOLATION|OK|KNOWN|proof gate|correspondence)' | head -8
-git -C /repo checkout -- .
+git -C /repo checkout -- . ; git -C /repo clean -fdq -- src libs tests examples
